@@ -256,11 +256,6 @@ func HTMLAssets(item *models.Item) (assets []*models.URL, err error) {
 				matchReplacement = strings.Replace(matchReplacement, "'", "", -1)
 				matchReplacement = strings.Replace(matchReplacement, "\"", "", -1)
 
-				// If the URL already has http (or https), we don't need add anything to it.
-				if !strings.Contains(matchReplacement, "http") {
-					matchReplacement = strings.Replace(matchReplacement, "//", "http://", -1)
-				}
-
 				if strings.HasPrefix(matchReplacement, "#wp-") {
 					continue
 				}
